@@ -88,4 +88,156 @@ def c05Step (args : List String) : String :=
         | some x => ok (showFloat x)
   | _ => badOp
 
-def main (args : List String) : IO UInt32 := mainWith () (fun _ t => ((), c05Step t)) args
+/-! ### sessions: `ses cmd | cmd | …` — one state per line (buffers, `Matrix` and `Vector` objects in numbered slots).
+The Rust side uses the slots to pass *the same object* as both operands, overlapping sub-slices of one buffer, operands
+mutated in place between two calls, and operands re-allocated right after a drop; the model just sees values.
+  v s len <data> | p s idx x | d s                      raw buffer: set (drop + allocate), poke in place, drop
+  M s r c <data> | pM s idx x | dM s ; V s len <data> | pV s idx x | dV s     Matrix / Vector objects
+  mm ta tb ra rb sa oa la sb ob lb | mb ta tb ra rb bs sa oa la sb ob lb | xtx k s o l | tr k s o l    (slot offset length)
+  dmm meth own sa sb | dmv meth own sM sV | dvm meth own sV sM | dvv meth own sa sb
+  dmd meth own sM  (m.meth(&m.data))  | ddm meth own sM  (m.data.meth(&m))
+Reply `= r1 | r2 | …`, ri = `ok …` or `panic`. -/
+
+structure C05Ses where
+  bufs : List (Nat × List Float) := []
+  mats : List (Nat × Mat Float) := []
+  vecs : List (Nat × List Float) := []
+
+def c05Set {β : Type} (l : List (Nat × β)) (k : Nat) (v : β) : List (Nat × β) := (k, v) :: l.filter (fun p => p.1 != k)
+def c05Del {β : Type} (l : List (Nat × β)) (k : Nat) : List (Nat × β) := l.filter (fun p => p.1 != k)
+
+def c05Slice (st : C05Ses) (s o l : Nat) : Option (List Float) :=
+  match st.bufs.lookup s with
+  | none => none
+  | some b => if o + l ≤ b.length then some ((b.drop o).take l) else none
+
+def c05Run {α : Type} (p : P α) (args : List String) : Option α :=
+  match (do let a ← p; pEnd; pure a : P α).run args with
+  | some (a, _) => some a
+  | none => none
+
+def c05Poke (b : List Float) (i : Nat) (x : Float) : Option (List Float) :=
+  if i < b.length then some (b.set i x) else none
+
+/-- One command; `none` = protocol error (unknown slot / malformed). -/
+def c05Cmd (st : C05Ses) (args : List String) : Option (C05Ses × String) :=
+  match args with
+  | "v" :: rest => do
+    let (s, d) ← c05Run (do let s ← pNat; let d ← pVec; pure (s, d)) rest
+    pure ({ st with bufs := c05Set st.bufs s d }, ok "")
+  | "p" :: rest => do
+    let (s, i, x) ← c05Run (do let s ← pNat; let i ← pNat; let x ← pFloat; pure (s, i, x)) rest
+    let b ← st.bufs.lookup s
+    let b' ← c05Poke b i x
+    pure ({ st with bufs := c05Set st.bufs s b' }, ok "")
+  | "d" :: rest => do
+    let s ← c05Run pNat rest
+    pure ({ st with bufs := c05Del st.bufs s }, ok "")
+  | "M" :: rest => do
+    let (s, r, c, d) ← c05Run (do let s ← pNat; let r ← pNat; let c ← pNat; let d ← pMany pFloat (r * c); pure (s, r, c, d)) rest
+    pure ({ st with mats := c05Set st.mats s ⟨d, r, c⟩ }, ok "")
+  | "pM" :: rest => do
+    let (s, i, x) ← c05Run (do let s ← pNat; let i ← pNat; let x ← pFloat; pure (s, i, x)) rest
+    let m ← st.mats.lookup s
+    let d' ← c05Poke m.data i x
+    pure ({ st with mats := c05Set st.mats s ⟨d', m.nrows, m.ncols⟩ }, ok "")
+  | "dM" :: rest => do
+    let s ← c05Run pNat rest
+    pure ({ st with mats := c05Del st.mats s }, ok "")
+  | "V" :: rest => do
+    let (s, d) ← c05Run (do let s ← pNat; let d ← pVec; pure (s, d)) rest
+    pure ({ st with vecs := c05Set st.vecs s d }, ok "")
+  | "pV" :: rest => do
+    let (s, i, x) ← c05Run (do let s ← pNat; let i ← pNat; let x ← pFloat; pure (s, i, x)) rest
+    let b ← st.vecs.lookup s
+    let b' ← c05Poke b i x
+    pure ({ st with vecs := c05Set st.vecs s b' }, ok "")
+  | "dV" :: rest => do
+    let s ← c05Run pNat rest
+    pure ({ st with vecs := c05Del st.vecs s }, ok "")
+  | "mm" :: rest => do
+    let (ta, tb, ra, rb, sa, oa, la, sb, ob, lb) ← c05Run (do
+      let ta ← c05Bool; let tb ← c05Bool; let ra ← pNat; let rb ← pNat
+      let sa ← pNat; let oa ← pNat; let la ← pNat; let sb ← pNat; let ob ← pNat; let lb ← pNat
+      pure (ta, tb, ra, rb, sa, oa, la, sb, ob, lb)) rest
+    let a ← c05Slice st sa oa la
+    let b ← c05Slice st sb ob lb
+    pure (st, c05Vec (matmul a b ra rb ta tb))
+  | "mb" :: rest => do
+    let (ta, tb, ra, rb, bs, sa, oa, la, sb, ob, lb) ← c05Run (do
+      let ta ← c05Bool; let tb ← c05Bool; let ra ← pNat; let rb ← pNat; let bs ← pNat
+      let sa ← pNat; let oa ← pNat; let la ← pNat; let sb ← pNat; let ob ← pNat; let lb ← pNat
+      pure (ta, tb, ra, rb, bs, sa, oa, la, sb, ob, lb)) rest
+    let a ← c05Slice st sa oa la
+    let b ← c05Slice st sb ob lb
+    pure (st, c05Vec (matmulBlocked a b ra rb ta tb bs))
+  | "xtx" :: rest => do
+    let (k, s, o, l) ← c05Run (do let k ← pNat; let s ← pNat; let o ← pNat; let l ← pNat; pure (k, s, o, l)) rest
+    let x ← c05Slice st s o l
+    pure (st, c05Vec (xtx x k))
+  | "tr" :: rest => do
+    let (k, s, o, l) ← c05Run (do let k ← pNat; let s ← pNat; let o ← pNat; let l ← pNat; pure (k, s, o, l)) rest
+    let x ← c05Slice st s o l
+    pure (st, c05Vec (transpose x k))
+  | "dmm" :: ms :: rest => do
+    let meth ← c05Meth ms
+    let (_, sa, sb) ← c05Run (do let o ← pNat; let a ← pNat; let b ← pNat; pure (o, a, b)) rest
+    let a ← st.mats.lookup sa
+    let b ← st.mats.lookup sb
+    pure (st, c05Mat (dotMM meth a b))
+  | "dmv" :: ms :: rest => do
+    let meth ← c05Meth ms
+    let (_, sa, sb) ← c05Run (do let o ← pNat; let a ← pNat; let b ← pNat; pure (o, a, b)) rest
+    let a ← st.mats.lookup sa
+    let b ← st.vecs.lookup sb
+    pure (st, c05Vec (dotMV meth a b))
+  | "dvm" :: ms :: rest => do
+    let meth ← c05Meth ms
+    let (_, sa, sb) ← c05Run (do let o ← pNat; let a ← pNat; let b ← pNat; pure (o, a, b)) rest
+    let a ← st.vecs.lookup sa
+    let b ← st.mats.lookup sb
+    pure (st, c05Vec (dotVM meth a b))
+  | "dvv" :: ms :: rest => do
+    let meth ← c05Meth ms
+    let (_, sa, sb) ← c05Run (do let o ← pNat; let a ← pNat; let b ← pNat; pure (o, a, b)) rest
+    let a ← st.vecs.lookup sa
+    let b ← st.vecs.lookup sb
+    pure (st, match dotVV meth a b with | none => panicked | some x => ok (showFloat x))
+  | "dmd" :: ms :: rest => do
+    let meth ← c05Meth ms
+    let (_, sa) ← c05Run (do let o ← pNat; let a ← pNat; pure (o, a)) rest
+    let a ← st.mats.lookup sa
+    pure (st, c05Vec (dotMV meth a a.data))
+  | "ddm" :: ms :: rest => do
+    let meth ← c05Meth ms
+    let (_, sa) ← c05Run (do let o ← pNat; let a ← pNat; pure (o, a)) rest
+    let a ← st.mats.lookup sa
+    pure (st, c05Vec (dotVM meth a.data a))
+  | _ => none
+
+def c05SplitCmds (args : List String) : List (List String) :=
+  let (cur, acc) := args.foldl (fun (p : List String × List (List String)) t =>
+    if t == "|" then ([], p.1.reverse :: p.2) else (t :: p.1, p.2)) ([], [])
+  (cur.reverse :: acc).reverse
+
+def c05Sub (r : String) : String :=
+  if r.startsWith "=" then "ok" ++ String.ofList (r.toList.drop 1) else "panic"
+
+def c05Ses (args : List String) : String :=
+  let rec go (st : C05Ses) (cmds : List (List String)) (acc : List String) : Option (List String) :=
+    match cmds with
+    | [] => some acc.reverse
+    | c :: cs =>
+      match c05Cmd st c with
+      | none => none
+      | some (st', r) => go st' cs (c05Sub r :: acc)
+  match go {} (c05SplitCmds args) [] with
+  | none => badOp
+  | some rs => ok (" | ".intercalate rs)
+
+def c05StepAll (args : List String) : String :=
+  match args with
+  | "ses" :: rest => c05Ses rest
+  | _ => c05Step args
+
+def main (args : List String) : IO UInt32 := mainWith () (fun _ t => ((), c05StepAll t)) args
